@@ -7,6 +7,7 @@ package fbb
 import (
 	"bufio"
 	"bytes"
+	"unicode/utf8"
 
 	"github.com/paulrosania/go-charset/charset"
 	_ "github.com/paulrosania/go-charset/data"
@@ -28,6 +29,11 @@ func StringToBody(str, encoding string) ([]byte, error) {
 		for {
 			// Lines can not be longer that 1000 characters including CRLF.
 			n := min(len(line), 1000-2)
+
+			// Do not split a multi-byte (UTF-8) character.
+			for i := 0; i < utf8.UTFMax-1 && n < len(line) && !utf8.RuneStart(line[n]); i++ {
+				n--
+			}
 
 			out.Write(line[:n])
 			out.WriteString("\r\n")
